@@ -134,6 +134,7 @@ def granted(rows_set, path, method):
 def run(ck, fb):
     _run0(ck, fb)
     r17f(ck, fb)
+    r17g(ck, fb)
 
 
 def _run0(ck, fb):
@@ -388,3 +389,64 @@ def r17f(ck, fb):
                'sessions are read from %s, user changes are announced to %s (handled by %s): the two never meet, so a session keeps its roles and '
                'namespace privilege after the user was demoted, restricted or removed' % (sorted(readers), sorted(notified), sorted(handlers)),
                'session store is told about user changes')
+
+
+def r17g(ck, fb):
+    from rn.facts import pl_fields, pl_local, rv_places, op_place
+    ck.rule('R17g', 'a login through an identity provider honours what the administrator stored for the user: every login actor that asks the user '
+                    'manager for the stored record (UserManagerReq::InitUser) to build the session data tests the record\'s enable flag (a disabled '
+                    'user gets no session), as the password login does through check_user')
+    ck.rule('R17h', 'the roles of an identity-provider session are not fixed by configuration alone: where the only other source of the role is the '
+                    'configured default role (OAuth2), the roles handed to the session derive from the stored record when it exists - otherwise a '
+                    'user the administrator made a visitor gets developer rights with every fresh login')
+    ck.rule('R17i', 'no session without credentials: the LDAP login never sends a simple bind with an empty password (RFC 4513 5.1.2: an '
+                    '"unauthenticated bind", answered with success by servers that permit it) - the bind call is reached only when the password '
+                    'was tested non-empty')
+    actors = []
+    for b in fb.bodies.values():
+        if '::tests' in b.name or b.name.startswith('rnacos::user::') or b.name.startswith('rnacos::console::'):
+            continue
+        if b.aggregates(r'rnacos::user::UserManagerReq$', 'InitUser'):
+            actors.append(b)
+    ck.floor('R17g', 'identity-provider login actors that read the stored user', len(actors), 2)
+    for b in sorted(actors, key=lambda x: x.name):
+        ck.analysed(b)
+        who = b.name.split('rnacos::')[-1].replace('::{closure#0}', '')
+        resp = Taint(b, call_src=lambda t: bool(re.search(r'actix::Addr::<A>::send$', (t.get('f') or {}).get('d', ''))) and 'rnacos::user::UserManager' in str((t.get('f') or {}).get('full', '')))
+
+        def stored(field):
+            def src(p):
+                fs = pl_fields(p)
+                return field in fs and resp.local_tainted(pl_local(p))
+            return Taint(b, place_src=src)
+        en = stored('enable')
+        tested = [i for i, blk in enumerate(b.blocks) if blk['t']['k'] == 'switch' and en.op_tainted(blk['t']['discr'])]
+        ck.require(bool(tested), 'R17g', 'stored-enable-tested:%s' % who, b.where(),
+                   '%s builds the session data from the stored user record without looking at its enable flag: the administrator disables the user '
+                   '(enable=false, shown in the user list) and a fresh login through the identity provider still returns a token' % who,
+                   'enable tested')
+        # roles: only where the configured default role is the sole source
+        reads_default = [f for (o, f, bb, st) in b.field_reads() if f.endswith('_default_role')]
+        other_role_source = b.calls(r'ldap3::|search') or [f for (o, f, bb, st) in b.field_reads() if 'group' in f or 'admin_filter' in f or 'developer_filter' in f]
+        if reads_default and not other_role_source:
+            ro = stored('roles')
+            metas = [s0 for s0 in b.sites if re.search(r'UserMeta::new$', s0.full or s0.callee or '')]
+            ok = bool(metas) and all(any(ro.op_tainted(a) for a in s0.args) for s0 in metas)
+            ck.require(ok, 'R17h', 'stored-roles-used:%s' % who, (metas[0].where() if metas else b.where()),
+                       '%s gives every session the configured default role: bob is stored as VISITOR (roles=2), logs in again through OAuth2 and his '
+                       'fresh session adds a configuration' % who, 'roles derive from the stored record')
+    n = 0
+    for b in fb.bodies.values():
+        for s0 in b.calls(r'simple_bind$'):
+            n += 1
+            ck.analysed(b)
+            ok = False
+            for a in cfg.guard_atoms(b, s0.bb):
+                if a[0] == 'call' and re.search(r'::is_empty$', a[1] or '') and a[2] is False:
+                    t = a[3]
+                    if t.get('args') and cfg.origin_fields(b, t['args'][0])[-1:] == ['password']:
+                        ok = True
+            ck.require(ok, 'R17i', 'bind-needs-password:%s' % b.name.split('rnacos::')[-1].replace('::{closure#0}', ''), s0.where(),
+                       'simple_bind is sent with whatever password the form carried: username=alice&password= (and any user name that does not exist) '
+                       'returns a console token when the directory permits unauthenticated binds', 'password tested non-empty before the bind')
+    ck.floor('R17i', 'LDAP bind sites', n, 1)
